@@ -1,4 +1,5 @@
 import HcModel.Config
+import HcModel.FirstStart
 import HcModel.Drv.Util
 /- driver ops of the restart-history model (C20). The content hash is instantiated by the canonical text of the
    stripped document (injective), so the model predicts "version + 1 iff the stripped documents differ". -/
@@ -172,6 +173,13 @@ def handle : List String → String
         let (st, o) := runTok acc.1 t
         (st, acc.2 ++ [o])) (({}, {}), [])
       " | ".intercalate outs
+  | ["cfgcrash", hf, v, h0, h, k] =>
+    -- a start with structure hash h on a disk holding version v / hash h0, killed after k configuration writes, then a complete start
+    match hf.toNat?, v.toNat?, h0.toNat?, h.toNat?, k.toNat? with
+    | some hf, some v, some h0, some h, some k =>
+      let d := Hc.CfgCrash.crashThenStart (hf == 1) ⟨some v, some h0⟩ h k
+      s!"version={d.version.getD 0} hash={d.hash.getD 0}"
+    | _, _, _, _, _ => "bad-op"
   | _ => "bad-op"
 
 end Hc.Drv.Config
